@@ -74,8 +74,10 @@ def poly_case(res, pts, ids, exprs, meta):
         bad.append("translation changes area or perimeter")
     s = meta["s"]
     zc, _ = make_cell([(x * s, y * s) for x, y in pts], ids)
-    if Fraction(zc.get_area()) != Fraction(a) * Fraction(s) ** 2 or abs(zc.get_perimeter() - abs(s) * per) > 1e-9 * (1 + abs(s) * per):
-        bad.append("scaling law violated")
+    if Fraction(zc.get_area()) != Fraction(a) * Fraction(s) ** 2 or abs(zc.get_perimeter() - abs(s) * per) > 1e-9 * abs(s) * per:
+        bad.append(f"scaling law violated for factor {s}")
+    if zc.get_area_sign() != sg or [zc.get_next_vertex(w).id for w in zc.vertices] != nxt:
+        bad.append(f"area sign / navigation change under scaling by {s}")
     replay = {"pts": [[float(x).hex(), float(y).hex()] for x, y in pts], "ids": ids, "meta": meta}
     for b in bad:
         res.fail("oracle", b, replay)
@@ -172,7 +174,7 @@ def run(res, tier, seed):
         pts = pts[sh:] + pts[:sh]
         ids = [int(x) for x in rng.permutation(3 * n)[:n]]
         meta = {"shift": int(rng.integers(1, n)), "t": [float(rng.integers(-2 ** 12, 2 ** 12)) / 16, float(rng.integers(-2 ** 12, 2 ** 12)) / 16],
-                "s": float(2.0 ** int(rng.integers(-6, 7))) * (1 if rng.random() < 0.8 else -1)}
+                "s": float(2.0 ** int(rng.integers(-6, 7) if k % 2 else rng.integers(-40, 41))) * (1 if rng.random() < 0.8 else -1)}
         poly_case(res, pts, ids, exprs, meta)
     for k in range(ntis):
         spec = gen.voronoi_tissue(rng, n=int(rng.integers(8, 40)), npts=int(rng.integers(0, 4)), snap=8,
